@@ -931,15 +931,20 @@ func c09EveryListedPatchLoaded(r *an.Run) {
 		return
 	}
 	var load ssa.CallInstruction
-	for _, c := range an.Calls(f) {
-		if an.StaticCallee(c) == lf {
-			load = c
+	for _, g := range helperGroup(f, 2) {
+		if g == lf {
+			continue
+		}
+		for _, c := range an.Calls(g) {
+			if an.StaticCallee(c) == lf {
+				load = c
+			}
 		}
 	}
 	if load == nil {
 		return // reported by R1 |loads
 	}
-	l := an.LoopOf(f, load.Block())
+	l := an.LoopOf(load.Parent(), load.Block())
 	if l == nil {
 		return
 	}
